@@ -319,3 +319,52 @@ def dequeued_entry_is_never_dropped(ctx):
             ctx.check(pure, f'{tx.qualname}:loop left with a dequeued entry only for the shutdown marker', lv, f'guarded by `{var} is None`',
                       f'the loop can be left under {[src(t) for t in guards]} with a request entry that was taken from txq but is neither active nor pending: '
                       'disconnect() can not find it, its caller is never released', tx)
+
+
+@rule('C11.R8', min_instances=1)
+def no_stale_queue_alias_across_connect(ctx):
+    """connect() replaces self.txq / self.pending by new queues: a request must be put on the queue read AFTER the
+    connect-on-demand call, never on a local alias taken before it (the request would land on the abandoned queue: it is
+    never transmitted and not even a disconnect releases its caller)"""
+    m = ctx.m
+    ci = m.cls(C)
+    con = m.method(C, 'connect', inherited=False)
+    replaced = {t.attr for t, v, s in attr_stores(con.node) if dotted(t.value) == 'self' and isinstance(v, ast.Call) and 'Queue' in src(v.func)}
+    if not replaced:
+        raise AnchorMissing('connect() does not create the request queues')
+    n = 0
+    for name, f in sorted(ci.methods.items()):
+        conn_calls = [c for c in calls_in(f.node) if call_attr(c) == 'connect' and dotted(c.func.value) == 'self']
+        puts = [c for c in calls_in(f.node) if call_attr(c) in ('put', 'put_nowait')]
+        if not puts:
+            continue
+        cfg = None
+        for c in puts:
+            recv = c.func.value
+            if isinstance(recv, ast.Attribute) and dotted(recv.value) == 'self' and recv.attr in replaced:
+                n += 1
+                ctx.analysed(f)
+                ctx.ok(f'{f.qualname}:request put on the current queue', c, f'`{src(recv)}` is read at the put', f)
+                continue
+            if not isinstance(recv, ast.Name):
+                continue
+            defs = [(v, st) for v, st, how in local_assigns(f.node, recv.id)
+                    if how == 'assign' and isinstance(v, ast.Attribute) and dotted(v.value) == 'self' and v.attr in replaced]
+            if not defs:
+                continue
+            n += 1
+            ctx.analysed(f)
+            cfg = cfg or CFG(f.node, m, f.module)
+            stale = False
+            for v, st in defs:
+                after_def = cfg.reach(cfg.node_of(st))
+                for cc in conn_calls:
+                    cids = cfg.node_of(cc)
+                    if set(cids) & after_def and set(cfg.node_of(c)) & cfg.reach(cids):
+                        stale = True
+            ctx.check(not stale, f'{f.qualname}:request put on the current queue', c, 'no connect() between the alias and the put',
+                      f'`{src(c)}` uses an alias of self.{defs[0][0].attr} taken before self.connect(): connect() replaces the queues when it '
+                      'really (re)connects, so the request is put on the abandoned queue - it is never sent, the caller times out, and it '
+                      'is in none of txq / pending / active_requests, so even a disconnect does not release it', f)
+    if not n:
+        raise AnchorMissing('no put on the request queues found in SecopClient')
